@@ -107,7 +107,6 @@ func c37ColStrings(c schema.Column) map[string]string {
 	}
 	ti := "<nil>"
 	if c.TypeInfo != nil {
-		ti = c.TypeInfo.String() + " / " + c.TypeInfo.ToSqlType().String() + fmt.Sprintf(" / coll=%v", c.TypeInfo.ToSqlType().CollationCoercibility)
 		ti = c.TypeInfo.String() + " / " + c.TypeInfo.ToSqlType().String()
 	}
 	return map[string]string{
@@ -325,7 +324,6 @@ func c37GenColSpec(rt *rapid.T, m *c37Model, class string, allowGen bool) c37Spe
 		if n >= 10 {
 			defLits = append(defLits, "'ü'")
 		}
-		defExprs = []string{"(CONCAT('a','b'))"[:0]}
 		defExprs = []string{"(UPPER('x'))"}
 		if n >= 10 {
 			defExprs = append(defExprs, "(CONCAT('a','b'))")
@@ -762,8 +760,14 @@ func c37GenAlter(rt *rapid.T, m *c37Model) c37Stmt {
 // ---------------------------------------------------------------------------------------
 // the check
 
+// c37CurProg is the program of the running case (for messages only).
+var c37CurProg string
+
 func c37ShowCreate(t vsql.TB, s *vsql.Session, table string) string {
-	r := s.MustQuery(t, "SHOW CREATE TABLE `"+table+"`")
+	r, err := s.Query("SHOW CREATE TABLE `" + table + "`")
+	if err != nil {
+		t.Fatalf("SHOW CREATE TABLE %s failed: %v\n--- program ---\n%s", table, err, c37CurProg)
+	}
 	if len(r.Data) != 1 || len(r.Data[0]) < 2 {
 		t.Fatalf("SHOW CREATE TABLE returned %v", r)
 	}
@@ -849,6 +853,7 @@ func TestVerif_C37(t *testing.T) {
 			checkRT(st.SQL)
 		}
 		prog := strings.Join(script, ";\n")
+		c37CurProg = prog
 		show1 := c37ShowCreate(rt, s1, m.Table)
 		p1, err := c37Fetch(srv, dbA, "b1", m.Table)
 		if err != nil {
